@@ -72,7 +72,11 @@ def plot_event(s, schedule, req_xlim=0):
 NBITS = 12
 
 
+AXIS_ENDS = []
+
+
 def _band_plotter(schedule, makespan=None, available_operations=None, current_time=None):
+    AXIS_ENDS.append(model.num(makespan) if makespan is not None else -1)      # the axis limit this frame is asked to use
     """A plot function for the REAL gif pipeline that draws the number of
     scheduled operations as black/white bands (robust to GIF palettes)."""
     import matplotlib.pyplot as plt
@@ -125,6 +129,7 @@ def frames_event(s, n, rng):
 
     def go():
         gif = os.path.join(tmp, "a.gif")
+        del AXIS_ENDS[:]
         create_gantt_chart_gif(instance, gif, plot_function=_band_plotter, fps=50,
                                schedule_history=list(h.history))
         return [_decode(f) for f in imageio.mimread(gif, memtest=False)]
@@ -133,7 +138,9 @@ def frames_event(s, n, rng):
         out, ks = _outcome(go)
     finally:
         shutil.rmtree(tmp, ignore_errors=True)
-    s._ev({"a": "Frames", "n": n, "out": out, "ks": ks if out == "ok" else []})
+    s._ev({"a": "Frames", "n": n, "out": out, "ks": ks if out == "ok" else [],
+           "axis_ends": list(AXIS_ENDS) if n <= 200 else list(AXIS_ENDS[:50]),
+           "final_makespan": int(d.schedule.makespan())})
 
 
 def creator_frames_events(s, rng, n1, n2, video=False):
